@@ -328,6 +328,9 @@ fn exec(case: &str) -> String {
     out.push(format!("P:{}", run_once(&c, c.en, 0)));
     for j in 0..c.reps {
         let seed = c.pseed.wrapping_mul(1_000_003).wrapping_add(j as u64 + 1) | 1;
+        // contention cases (many repetitions): every other run is unperturbed, so that workers that start
+        // together also finish together (races on shared counters need simultaneous, not staggered, workers)
+        let seed = if c.reps >= 50 && j % 2 == 1 { 0 } else { seed };
         out.push(format!("P:{}", run_once(&c, c.en, seed)));
     }
     out.join(" ")
@@ -447,6 +450,28 @@ fn gen(rng: &mut Rng, n: usize, tier: &str) -> Vec<String> {
             out.push(show_case(&c));
         }
         n_rules += step;
+    }
+    // contention family: one salience level of 16..24 rules that all fire, one rule per worker, many repetitions
+    // (a lost update on a shared tally or result vector needs workers that finish at the same instant)
+    let (ncont, creps) = if tier == "thorough" { (40usize, 200usize) } else { (12usize, 100usize) };
+    for k in 0..ncont {
+        let mut c = gen_case(rng, creps);
+        c.en = true;
+        c.mt = 16;
+        c.mr = 1;
+        c.reps = creps;
+        c.facts = vec![("a".to_string(), 1)];
+        let n_rules = 16 + (k % 9);
+        c.rules = (0..n_rules)
+            .map(|i| RuleSpec {
+                name: format!("r{}", i),
+                sal: 0,
+                en: true,
+                cond: vec![Tok::Leaf("a".to_string(), if i % 5 == 4 { "lt" } else { "ge" }.to_string(), 1)],
+                acts: vec![],
+            })
+            .collect();
+        out.push(show_case(&c));
     }
     for _ in 0..n {
         out.push(show_case(&gen_case(rng, reps)));
